@@ -62,6 +62,7 @@ type target struct {
 var importMap = map[string]string{
 	"sync":                                  "verif/h/vsched/vsync",
 	"time":                                  "verif/h/vsched/vtime",
+	"context":                               "verif/h/vsched/vcontext",
 	"github.com/coder/websocket":            "verif/h/vsched/fake/websocket",
 	"github.com/coder/websocket/wsjson":     "verif/h/vsched/fake/wsjson",
 	"github.com/fsnotify/fsnotify":          "verif/h/vsched/fake/fsnotify",
